@@ -128,6 +128,21 @@ func genPMT() (out []tableCase) {
 	for _, h := range hdrVariants() {
 		mk("header", modelPMT(1, 0x100, 2), h)
 	}
+	// one descriptor of every body length 0..255 (descriptor_length at and next to its maximum), in the
+	// program loop, in a stream loop, and in both
+	for l := 0; l <= 255; l++ {
+		priv := func(tag uint8) []*astits.Descriptor {
+			return fixLens([]*astits.Descriptor{{Tag: tag, UserDefined: bytes.Repeat([]byte{byte(l)}, l)}})
+		}
+		mk(fmt.Sprintf("program descriptor of %d bytes", l), &astits.PMTData{ProgramNumber: 7, PCRPID: 0x101, ProgramDescriptors: priv(0x80),
+			ElementaryStreams: []*astits.PMTElementaryStream{{ElementaryPID: 0x101, StreamType: 2}}}, ref.SecHdr{CNI: true})
+		mk(fmt.Sprintf("stream descriptor of %d bytes", l), &astits.PMTData{ProgramNumber: 7, PCRPID: 0x101,
+			ElementaryStreams: []*astits.PMTElementaryStream{{ElementaryPID: 0x101, StreamType: 2, ElementaryStreamDescriptors: priv(0xfe)}, {ElementaryPID: 0x102, StreamType: 3}}}, ref.SecHdr{CNI: true})
+		if l >= 250 || l <= 2 {
+			mk(fmt.Sprintf("program and stream descriptors of %d bytes", l), &astits.PMTData{ProgramNumber: 7, PCRPID: 0x101, ProgramDescriptors: priv(0x81),
+				ElementaryStreams: []*astits.PMTElementaryStream{{ElementaryPID: 0x101, StreamType: 2, ElementaryStreamDescriptors: priv(0x82)}}}, ref.SecHdr{CNI: true})
+		}
+	}
 	return
 }
 
